@@ -4,3 +4,9 @@ pub mod thread;
 /// Frame encoding to convert a data stream into packets.
 /// It can be used as a utility to build adapters.
 pub mod encoding;
+
+/// Verification hooks (feature `verif-hooks` only): named synchronization points
+/// that a test harness can use to force a specific thread interleaving.
+#[cfg(feature = "verif-hooks")]
+#[doc(hidden)]
+pub mod verif;
